@@ -317,19 +317,26 @@ def check_remove(ctx, prog):
 
 def check_who(ctx, prog):
     MUT = r"(HashMap|HashSet)::(insert|remove|remove_entry|entry|retain|clear|drain|extend|replace|take|get_mut|values_mut|iter_mut|get_or_insert_with|extract_if)$"
-    who = {F.records: set(), F.providers: set(), F.provided: set()}
+    MSP = "libp2p_kad::<record::store::memory::MemoryStore as record::store::RecordStore>::"
+    tab = {F.records: {MSP + "put": {"entry"}, MSP + "remove": {"remove"}, "libp2p_kad::record::store::memory::MemoryStore::retain": {"retain"}},
+           F.providers: {MSP + "add_provider": {"entry"}, MSP + "remove_provider": {"entry"}},
+           F.provided: {MSP + "add_provider": {"insert", "remove", "replace"}, MSP + "remove_provider": {"remove"}}}
+    seen = {f: set() for f in tab}
     for b in prog.bodies(K):
         if "record::store::memory" not in b.npath:
             continue
-        root = lk.root_fn(prog, b).npath.split("::")[-1]
+        root = lk.root_fn(prog, b)
         for s in b.call_sites(MUT):
             r = render(b.site_expr(s)[2][0])
-            for f in who:
+            for f in tab:
                 if r == "self." + f:
-                    who[f].add(root + ":" + strip_generics(b.call_name(s.term)).split("::")[-1])
-    ctx.ob("who", "records written only by put (entry), remove, retain", who[F.records] == {"put:entry", "remove:remove", "retain:retain"}, msg=str(sorted(who[F.records])))
-    ctx.ob("who", "providers written only by add_provider / remove_provider (entry)", who[F.providers] == {"add_provider:entry", "remove_provider:entry"}, msg=str(sorted(who[F.providers])))
-    ctx.ob("who", "provided written only by add_provider / remove_provider", who[F.provided] in ({"add_provider:insert", "add_provider:remove", "remove_provider:remove"}, {"add_provider:replace", "remove_provider:remove"}, {"add_provider:insert", "add_provider:replace", "remove_provider:remove"}), msg=str(sorted(who[F.provided])))
+                    m = strip_generics(b.call_name(s.term)).split("::")[-1]
+                    seen[f].add(root.npath.split("::")[-1] + ":" + m)
+                    ok = m in lk.allowed_kinds(prog, K, root, tab[f])
+                    what = {F.records: "records written only by put (entry), remove, retain", F.providers: "providers written only by add_provider / remove_provider (entry)",
+                            F.provided: "provided written only by add_provider / remove_provider"}[f]
+                    ctx.ob("who", what, ok, s.loc(), "%s.%s in %s (private helpers inherit what all their callers may do)" % (f, m, root.short))
+    ctx.ob("who", "floor:store mutation sites", all(len(v) >= 2 for v in seen.values()), nontrivial=False, msg=str({k: sorted(v) for k, v in seen.items()}))
     wc = ctx.body(K, r"record::store::memory::MemoryStore::with_config$")
     ags = wc.agg_sites(r"memory::MemoryStore$")
     f = {k: render(v) for k, v in wc.site_expr(ags[0])[4]} if len(ags) == 1 else {}
